@@ -35,6 +35,7 @@ type memSessions struct {
 	store    map[string][]byte
 	n        int
 	getFails bool
+	getStale bool // Get fails but still hands back the record it holds (a revoked or expired session: "error = no session")
 	newFails bool
 }
 
@@ -60,6 +61,9 @@ func (m *memSessions) Get(r *http.Request, k string) ([]byte, error) {
 	c, err := r.Cookie("sid")
 	if err != nil {
 		return nil, nil
+	}
+	if m.getStale {
+		return m.store[c.Value], fmt.Errorf("session revoked")
 	}
 	return m.store[c.Value], nil
 }
@@ -422,6 +426,9 @@ func cmdC03(args []string) error {
 				q.Store = "getFails"
 			case 7:
 				q.Cookie = "garbage"
+			case 9:
+				q.Cookie = "own"
+				q.Store = "getFailsStale"
 			case 8:
 				q = Q(H("negInit", "krb5", "apreq"), map[string]string{})
 				for k, v := range nominal {
@@ -433,7 +440,7 @@ func cmdC03(args []string) error {
 			}
 			return q
 		}
-		nsym := 9
+		nsym := 10
 		maxLen := 3
 		var rec func(word []int) error
 		rec = func(word []int) error {
@@ -496,7 +503,7 @@ func (cw *c03world) runSequence(tw *traceWriter, s c01Settings, et int32, qs []c
 	var recs []map[string]interface{}
 	for i := range qs {
 		q := &qs[i]
-		sm.getFails, sm.newFails = q.Store == "getFails", q.Store == "newFails"
+		sm.getFails, sm.newFails, sm.getStale = q.Store == "getFails", q.Store == "newFails", q.Store == "getFailsStale"
 		hv, has, m, err := cw.headerFor(q, s)
 		if err != nil {
 			return err
